@@ -196,3 +196,47 @@ def swFeedT {Msg} (U : Unpack Msg) (s : CST Msg) (chunk : Bytes) : CST Msg :=
   | _ => s
 
 end Pox.Framing
+
+/-! ## The controller-side loop with the windows it dispatched (C10) -/
+namespace Pox.Framing
+
+/-- `ctlLoop` keeping, for every dispatched message, the window of bytes it was decoded from -/
+def ctlLoopT {Msg} (U : Unpack Msg) (minLen : Nat) : Nat → Bytes → Nat → List (Bytes × Msg) → Nat × List (Bytes × Msg) × Status
+  | 0, _, off, ev => (off, ev, .alive)
+  | fuel+1, buf, off, ev =>
+    if buf.length - off < 8 then (off, ev, .alive) else
+    let ty := byteAt buf (off+1)
+    if byteAt buf off ≠ 1 ∧ ty ≠ 0 then (off, ev, .closed) else
+    let n := declLen buf off
+    if n < minLen then (off, ev, .closed) else
+    if buf.length - off < n then (off, ev, .alive) else
+    match U ty buf off with
+    | .raise => (off, ev, .dead)
+    | .none => (off, ev, .dead)
+    | .ok (off', m) =>
+      if off' - off ≠ n ∨ off' < off then (off, ev, .dead)
+      else ctlLoopT U minLen fuel buf off' (ev ++ [((buf.drop off).take n, m)])
+
+structure CCT (Msg : Type) where
+  buf : Bytes
+  trace : List (Bytes × Msg)
+  st : Status
+
+def initCT {Msg} : CCT Msg := { buf := [], trace := [], st := .alive }
+
+def ctlFeedT {Msg} (U : Unpack Msg) (minLen : Nat) (s : CCT Msg) (chunk : Bytes) : CCT Msg :=
+  match s.st with
+  | .alive =>
+    let buf := s.buf ++ chunk
+    let r := ctlLoopT U minLen (buf.length + 1) buf 0 s.trace
+    { buf := buf.drop r.1, trace := r.2.1, st := r.2.2 }
+  | _ => s
+
+/-- one round of `OpenFlow_01_Task.run` for connection `i`: `con.read()`; a connection whose read returned False
+    (closed) or raised (dead — the task's `except:` around the read) is closed and dropped from the served set, the
+    loop goes on -/
+def ctlServe {Msg} (U : Unpack Msg) (net : List (CS Msg)) (i : Nat) (chunk : Bytes) : List (CS Msg) :=
+  feedAt (fun c ch => let r := ctlFeed U 8 c ch
+                      if r.st = .dead then { r with st := .closed } else r) net i chunk
+
+end Pox.Framing
